@@ -83,7 +83,9 @@ TRANSLATORS.update({
            "(read_lines_to_outerboundary, _write, make_file, valid_boundary "
            "-> gen/MultipartGen.v); harness/py2v_multi.py + "
            "coq/lib/PyMulti.v (_skip_to_boundary, skip_lines, read_multi -> "
-           "gen/MultiGen.v)",
+           "gen/MultiGen.v); harness/py2v_fsparse.py + coq/lib/PyFsParse.v "
+           "(FieldStorageParser.__init__, _parse_content_type, parse, "
+           "read_single, read_lines -> gen/FsParseGen.v)",
     "C14": _T + "harness/py2v_headers.py + coq/lib/PyHeaders.v (class "
            "Headers -> gen/HeadersGen.v); harness/py2v_latin.py + "
            "coq/lib/PyLatin.v (Headers.iso88591, utf8, __iter__ -> "
